@@ -70,7 +70,7 @@ fn run_c19(ctx: &mut Ctx, rep: &mut Report) {
     let rt = tokio::runtime::Builder::new_multi_thread().worker_threads(2).enable_all().build().unwrap();
     let good: IpAddr = Ipv4Addr::new(127, 0, 0, 1).into();
     let bad: IpAddr = Ipv4Addr::new(127, 0, 0, 2).into();
-    let rounds = ctx.tier.pick(3usize, 30);
+    let rounds = ctx.tier.pick(3usize, 120);
     for round in 0..rounds {
         if !ctx.time_left() { rep.note("time budget reached"); break }
         // Leg 1: fault-injected subset. New server per round (a stalled listener stays stalled).
@@ -146,7 +146,7 @@ fn run_c19(ctx: &mut Ctx, rep: &mut Report) {
             let b = srv.config.rtr_listen[0];
             hooks.clear_detail_faults();
             hooks.add_detail_fault("rtr.setup", "127.0.0.2:", 1);
-            let bursts = ctx.tier.pick(8usize, 40);
+            let bursts = ctx.tier.pick(8usize, 60);
             'bursts: for burst in 0..bursts {
                 let n = 2 + rng.usize(4);
                 let mut pattern: Vec<bool> = (0..n).map(|_| rng.chance(1, 2)).collect();
@@ -289,7 +289,7 @@ fn check_clients(metrics: &RtrServerMetrics, expect: &std::collections::BTreeMap
 fn run_c36(ctx: &mut Ctx, rep: &mut Report) {
     let hooks = Hooks::install();
     let mut rng = ctx.rng("c36");
-    let rounds = ctx.tier.pick(4usize, 40);
+    let rounds = ctx.tier.pick(4usize, 1200);
     // (b) library leg
     for round in 0..rounds * 6 {
         if !ctx.time_left() { break }
